@@ -34,7 +34,64 @@ macro_rules! eqv {
     }};
 }
 
+/// `cfgdiff --deep <kind> <n>`: one list parser on n minimal elements, on a thread with the default stack of a spawned Rust thread
+/// (2 MiB). Used by C01 `deep_inputs` with this program built WITHOUT optimisation, where every call really has a stack frame: a parser
+/// whose stack depth grows with the number of elements dies here (the process is killed by the stack guard), an iterative one prints
+/// the number of elements it returned.
+fn deep(kind: &str, n: usize) {
+    let mut buf: Vec<u8> = Vec::new();
+    let unit: &[u8] = match kind {
+        "tls-records" => &[0x17, 3, 3, 0, 0],
+        "tls-alert-records" => &[0x15, 3, 3, 0, 2, 1, 0],
+        "dtls-records" => &[0x14, 0xfe, 0xfd, 0, 0, 0, 0, 0, 0, 0, 5, 0, 1, 1],
+        "extensions" | "client-extensions" | "server-extensions" => &[0x40, 0x01, 0, 0],
+        "handshake-messages" => &[0x0e, 0, 0, 0],
+        "alerts" => &[1, 0],
+        "sct-entries" => &[0, 1, 0xff],
+        "named-groups" => &[0, 0x1d],
+        _ => {
+            println!("unknown kind");
+            return;
+        }
+    };
+    for _ in 0..n {
+        buf.extend_from_slice(unit);
+    }
+    let kind = kind.to_string();
+    let h = std::thread::Builder::new().stack_size(2 * 1024 * 1024).spawn(move || -> String {
+        let i = buf.as_slice();
+        let hs = TlsRecordHeader { record_type: TlsRecordType::Handshake, version: TlsVersion::Tls12, len: 0 };
+        let al = TlsRecordHeader { record_type: TlsRecordType::Alert, version: TlsVersion::Tls12, len: 0 };
+        let count = match kind.as_str() {
+            "tls-records" | "tls-alert-records" => tls_parser_many(i).map(|(_, v)| v.len()),
+            "dtls-records" => parse_dtls_plaintext_records(i).map(|(_, v)| v.len()),
+            "extensions" => parse_tls_extensions(i).map(|(_, v)| v.len()),
+            "client-extensions" => parse_tls_client_hello_extensions(i).map(|(_, v)| v.len()),
+            "server-extensions" => parse_tls_server_hello_extensions(i).map(|(_, v)| v.len()),
+            "handshake-messages" => parse_tls_record_with_header(i, &hs).map(|(_, v)| v.len()),
+            "alerts" => parse_tls_record_with_header(i, &al).map(|(_, v)| v.len()),
+            "named-groups" => parse_named_groups(i).map(|(_, v)| v.len()),
+            _ => Ok(0),
+        };
+        match count {
+            Ok(c) => format!("ok {}", c),
+            Err(e) => format!("err {:?}", e.map(|x| x.code)),
+        }
+    });
+    match h.map(|h| h.join()) {
+        Ok(Ok(s)) => println!("{}", s),
+        Ok(Err(_)) => println!("panicked"),
+        Err(e) => println!("spawn failed: {}", e),
+    }
+}
+
 fn main() {
+    if std::env::args().nth(1).as_deref() == Some("--deep") {
+        let kind = std::env::args().nth(2).unwrap_or_default();
+        let n: usize = std::env::args().nth(3).and_then(|x| x.parse().ok()).unwrap_or(1000);
+        deep(&kind, n);
+        return;
+    }
     let path = std::env::args().nth(1).expect("corpus file");
     let text = std::fs::read_to_string(path).expect("read corpus");
     let mut out = String::new();
